@@ -932,7 +932,10 @@ func (ctx Ctx) compositeLiteral(e *ast.CompositeLit) coq.Expr {
 	}
 	info, ok := ctx.getStructInfo(ctx.typeOf(e))
 	if ok {
-		return ctx.structLiteral(info, e)
+		sl := ctx.structLiteral(info, e)
+		// the element {x: 1} of a []*T literal is shorthand for &T{x: 1}
+		sl.Allocation = info.throughPointer
+		return sl
 	}
 	ctx.unsupported(e, "composite literal of type %v", ctx.typeOf(e))
 	return nil
